@@ -26,8 +26,6 @@ import (
 	"verifkit/stat"
 )
 
-const c34Prefix = "lk34"
-
 type c34Locker struct {
 	NoLoop bool `json:"noloop"`
 	SetPX  bool `json:"setpx"`
@@ -38,6 +36,19 @@ type c34Op struct {
 	Kind   string `json:"kind"` // with try force
 	Name   string `json:"name"`
 	HoldMs int    `json:"hold_ms"`
+	// SabAfterMs > 0: that long after this call was granted another client deletes key SabKey of the name
+	SabAfterMs int `json:"sab_after_ms,omitempty"`
+	SabKey     int `json:"sab_key,omitempty"`
+}
+
+// c34Slow makes the server take LatMs (longer than TryNextAfter) for the first Times lock scripts that a locker
+// sends for one key: the attempt gives that key up and goes on with the next one.
+type c34Slow struct {
+	Locker int    `json:"locker"`
+	Name   string `json:"name"`
+	Key    int    `json:"key"`
+	LatMs  int    `json:"lat_ms"`
+	Times  int    `json:"times"`
 }
 
 type c34Actor struct {
@@ -47,7 +58,7 @@ type c34Actor struct {
 
 type c34Event struct {
 	AtMs   int    `json:"at_ms"`
-	Kind   string `json:"kind"` // del-one del-all pexpire flushall kill close
+	Kind   string `json:"kind"` // del-one del-all pexpire flushall kill close squat (SET key to a foreign value with PX Ms)
 	Name   string `json:"name,omitempty"`
 	Key    int    `json:"key,omitempty"`
 	Ms     int    `json:"ms,omitempty"`
@@ -55,6 +66,9 @@ type c34Event struct {
 }
 
 type c34Plan struct {
+	Prefix     string      `json:"prefix"` // LockerOption.KeyPrefix ("" = default)
+	Names      []string    `json:"names"`
+	Slow       []c34Slow   `json:"slow,omitempty"`
 	Majority   int         `json:"majority"`
 	ValidityMs int         `json:"validity_ms"`
 	TryNextMs  int         `json:"try_next_ms"`
@@ -105,8 +119,21 @@ type c34Script struct {
 	// Prev: the live (unexpired) value the key held just before the script ran (HadPrev false: no such key)
 	Prev    string `json:"prev,omitempty"`
 	HadPrev bool   `json:"had_prev,omitempty"`
-	Live    []int  `json:"live"` // ids of the acquisitions whose lock context was not done at that instant
+	SlowMs  int    `json:"slow_ms,omitempty"` // the plan made the server take this long for the script (> TryNextAfter)
+	Live    []int  `json:"live"`              // ids of the acquisitions whose lock context was not done at that instant
 	Unsupp  bool   `json:"unsupp,omitempty"`
+}
+
+type c34SlowHit struct {
+	Locker int    `json:"locker"`
+	AtUs   int64  `json:"at_us"`
+	Key    string `json:"key"`
+}
+
+type c34Sab struct {
+	AtUs int64  `json:"at_us"`
+	Name string `json:"name"`
+	Key  int    `json:"key"`
 }
 
 type c34Run struct {
@@ -115,26 +142,38 @@ type c34Run struct {
 	Scripts []c34Script
 	Events  []fakeredis.Event
 	ExtAt   []int64 // instants of the plan events (same order as plan.Events)
-	Pending int
-	CloseOK bool
-	Unsupp  bool
+	Sabs    []c34Sab
+	// SlowHits: scripts the plan slowed down (also those answered with NOSCRIPT, which never show up as executed)
+	SlowHits []c34SlowHit
+	Pending  int
+	CloseOK  bool
+	Unsupp   bool
 }
 
-func c34Key(name string, i int) string { return c34Prefix + ":" + strconv.Itoa(i) + ":" + name }
+// prefix is the effective key prefix (LockerOption.KeyPrefix "" means the documented default).
+func (p c34Plan) prefix() string {
+	if p.Prefix == "" {
+		return "rueidislock"
+	}
+	return p.Prefix
+}
 
-func c34NameOf(key string) (name string, idx int, ok bool) {
-	if !strings.HasPrefix(key, c34Prefix+":") {
-		return "", 0, false
+// key is the documented key layout prefix:index:name.
+func (p c34Plan) key(name string, i int) string {
+	return p.prefix() + ":" + strconv.Itoa(i) + ":" + name
+}
+
+// nameOf maps a key back to (lock name, index) by comparing it with the keys of the plan's names: prefixes and
+// names may contain colons themselves, so the key is not parsed.
+func (p c34Plan) nameOf(key string) (name string, idx int, ok bool) {
+	for _, n := range p.Names {
+		for i := 0; i < p.Majority*2-1; i++ {
+			if p.key(n, i) == key {
+				return n, i, true
+			}
+		}
 	}
-	parts := strings.SplitN(key[len(c34Prefix)+1:], ":", 2)
-	if len(parts) != 2 {
-		return "", 0, false
-	}
-	n, err := strconv.Atoi(parts[0])
-	if err != nil {
-		return "", 0, false
-	}
-	return parts[1], n, true
+	return "", 0, false
 }
 
 func c34Classify(body string) string {
@@ -178,12 +217,33 @@ func c34Exec(t *testing.T, plan c34Plan) (run c34Run) {
 		srv := w.NewServer("127.0.0.1:6379")
 		clock := sim.NewClock()
 		var latN int
+		slowUsed := make([]int, len(plan.Slow))
+		slowReq := map[[2]int]int{} // (connection, request) -> slow latency applied; under mu
 		srv.Hooks.Latency = func(c *fakeredis.Conn, req int, argv []string) time.Duration {
 			if c.BurstIdx != 0 {
 				return 0
 			}
 			switch strings.ToUpper(argv[0]) {
 			case "EVALSHA", "EVAL":
+				if len(argv) >= 5 {
+					for i, sl := range plan.Slow {
+						if argv[3] == plan.key(sl.Name, sl.Key) && c.ClientName() == fmt.Sprintf("locker%d", sl.Locker) {
+							mu.Lock()
+							left := sl.Times - slowUsed[i]
+							if left > 0 {
+								slowUsed[i]++
+							}
+							mu.Unlock()
+							if left > 0 {
+								mu.Lock()
+								slowReq[[2]int{c.ID, req}] = sl.LatMs
+								run.SlowHits = append(run.SlowHits, c34SlowHit{Locker: sl.Locker, AtUs: clock.Us(), Key: argv[3]})
+								mu.Unlock()
+								return time.Duration(sl.LatMs) * time.Millisecond
+							}
+						}
+					}
+				}
 				mu.Lock()
 				d := plan.LatUs[latN%len(plan.LatUs)]
 				latN++
@@ -198,7 +258,7 @@ func c34Exec(t *testing.T, plan c34Plan) (run c34Run) {
 		srv.Hooks.Command = func(c *fakeredis.Conn, req int, argv []string) (resp.Value, bool) {
 			cmd := strings.ToUpper(argv[0])
 			if (cmd == "EVAL" || cmd == "EVALSHA") && len(argv) >= 5 {
-				if _, _, ok := c34NameOf(argv[3]); ok {
+				if _, _, ok := plan.nameOf(argv[3]); ok {
 					if v, ok := srv.PeekStringLocked(argv[3]); ok {
 						prevs[prevKey{c.ID, req}] = &v
 					}
@@ -226,7 +286,7 @@ func c34Exec(t *testing.T, plan c34Plan) (run c34Run) {
 				return
 			}
 			kind := kinds[sha]
-			name, _, ok := c34NameOf(argv[3])
+			name, _, ok := plan.nameOf(argv[3])
 			if kind == "" || !ok {
 				return
 			}
@@ -245,11 +305,12 @@ func c34Exec(t *testing.T, plan c34Plan) (run c34Run) {
 				rec.OK = reply.T == ':' && reply.I == 1
 			}
 			for i := 0; i < total; i++ {
-				if v, ok := srv.PeekStringLocked(c34Key(name, i)); ok && v == rec.Val {
+				if v, ok := srv.PeekStringLocked(plan.key(name, i)); ok && v == rec.Val {
 					rec.Count++
 				}
 			}
 			mu.Lock()
+			rec.SlowMs = slowReq[[2]int{c.ID, req}]
 			rec.Ord = next()
 			for _, a := range run.Acqs {
 				if a.Acquired && a.ctx != nil && a.ctx.Err() == nil {
@@ -270,7 +331,7 @@ func c34Exec(t *testing.T, plan c34Plan) (run c34Run) {
 			opt.DialCtxFn = nets[i].dialer(opt.DialCtxFn)
 			l, err := rueidislock.NewLocker(rueidislock.LockerOption{
 				ClientOption:   opt,
-				KeyPrefix:      c34Prefix,
+				KeyPrefix:      plan.Prefix,
 				KeyValidity:    time.Duration(plan.ValidityMs) * time.Millisecond,
 				TryNextAfter:   time.Duration(plan.TryNextMs) * time.Millisecond,
 				KeyMajority:    int32(plan.Majority),
@@ -334,6 +395,14 @@ func c34Exec(t *testing.T, plan c34Plan) (run c34Run) {
 						a.DoneUs, a.Done = clock.Us(), true
 						mu.Unlock()
 					}()
+					if op.SabAfterMs > 0 {
+						time.AfterFunc(time.Duration(op.SabAfterMs)*time.Millisecond, func() {
+							mu.Lock()
+							run.Sabs = append(run.Sabs, c34Sab{AtUs: clock.Us(), Name: op.Name, Key: op.SabKey})
+							mu.Unlock()
+							srv.Do("DEL", plan.key(op.Name, op.SabKey))
+						})
+					}
 					tm := time.NewTimer(time.Duration(op.HoldMs) * time.Millisecond)
 					select {
 					case <-tm.C:
@@ -360,17 +429,20 @@ func c34Exec(t *testing.T, plan c34Plan) (run c34Run) {
 				mu.Unlock()
 				switch e.Kind {
 				case "del-one":
-					srv.Do("DEL", c34Key(e.Name, e.Key))
+					srv.Do("DEL", plan.key(e.Name, e.Key))
 				case "del-all":
 					args := []string{"DEL"}
 					for i := 0; i < total; i++ {
-						args = append(args, c34Key(e.Name, i))
+						args = append(args, plan.key(e.Name, i))
 					}
 					srv.Do(args...)
 				case "pexpire":
-					srv.Do("PEXPIRE", c34Key(e.Name, e.Key), strconv.Itoa(e.Ms))
+					srv.Do("PEXPIRE", plan.key(e.Name, e.Key), strconv.Itoa(e.Ms))
 				case "flushall":
 					srv.Do("FLUSHALL")
+				case "squat":
+					// NX: a stale value sits on a key that was free, it never replaces a live one
+					srv.Do("SET", plan.key(e.Name, e.Key), fmt.Sprintf("squat-%d", ei), "NX", "PX", strconv.Itoa(e.Ms))
 				case "kill":
 					nets[e.Locker].drop(false)
 				case "close":
@@ -431,7 +503,7 @@ func c34Truth(plan c34Plan, events []fakeredis.Event) map[string]*c34Loss {
 	recount := func(at int64, name, why string) {
 		counts := map[string]int{}
 		for i := 0; i < total; i++ {
-			if v, ok := keyVal[c34Key(name, i)]; ok {
+			if v, ok := keyVal[plan.key(name, i)]; ok {
 				counts[v]++
 			}
 		}
@@ -464,26 +536,35 @@ func c34Truth(plan c34Plan, events []fakeredis.Event) map[string]*c34Loss {
 		case "exec":
 			switch e.Argv[0] {
 			case "<expire>":
-				if name, _, ok := c34NameOf(e.Argv[1]); ok {
+				if name, _, ok := plan.nameOf(e.Argv[1]); ok {
 					delete(keyVal, e.Argv[1])
 					recount(e.At, name, "key expired")
 				}
 			case "DEL":
 				names := map[string]bool{}
 				for _, k := range e.Argv[1:] {
-					if name, _, ok := c34NameOf(k); ok {
+					if name, _, ok := plan.nameOf(k); ok {
 						delete(keyVal, k)
 						names[name] = true
 					}
 				}
-				for _, n := range []string{"a", "b"} {
+				for _, n := range plan.Names {
 					if names[n] {
 						recount(e.At, n, "key deleted by another client")
 					}
 				}
+			case "SET":
+				if name, _, ok := plan.nameOf(e.Argv[1]); ok {
+					if _, taken := keyVal[e.Argv[1]]; taken {
+						continue // SET .. NX on a key that holds a value
+					}
+					keyVal[e.Argv[1]] = e.Argv[2]
+					nameOf[e.Argv[2]] = name
+					recount(e.At, name, "key overwritten by another client")
+				}
 			case "FLUSHALL":
 				keyVal = map[string]string{}
-				for _, n := range []string{"a", "b"} {
+				for _, n := range plan.Names {
 					recount(e.At, n, "FLUSHALL")
 				}
 			}
@@ -499,7 +580,7 @@ func c34Truth(plan c34Plan, events []fakeredis.Event) map[string]*c34Loss {
 			if cmd == "EVAL" {
 				sha = sha1Hex(e.Argv[1])
 			}
-			name, _, ok := c34NameOf(e.Argv[3])
+			name, _, ok := plan.nameOf(e.Argv[3])
 			if !ok {
 				continue
 			}
@@ -539,7 +620,7 @@ func c34Check(col *stat.Collector, rt stat.Fataler, plan c34Plan, run c34Run) (n
 				sb.WriteString(e.String() + "\n")
 			}
 			os.WriteFile(d+"/c34-events.txt", []byte(sb.String()), 0o644)
-			b, _ := json.Marshal(map[string]any{"plan": plan, "acqs": run.Acqs, "scripts": run.Scripts, "ext_at": run.ExtAt})
+			b, _ := json.Marshal(map[string]any{"plan": plan, "acqs": run.Acqs, "scripts": run.Scripts, "ext_at": run.ExtAt, "sabs": run.Sabs, "slow_hits": run.SlowHits})
 			os.WriteFile(d+"/c34-obs.json", b, 0o644)
 		}
 	}}
@@ -571,6 +652,16 @@ func c34Check(col *stat.Collector, rt stat.Fataler, plan c34Plan, run c34Run) (n
 		if a.Kind == "force" && a.StartOrd != 0 {
 			anyForce = true
 		}
+	}
+	basePromptUs := promptUs
+	promptOf := func(locker int) int64 {
+		p := basePromptUs
+		for _, sl := range plan.Slow {
+			if sl.Locker == locker {
+				p += int64(sl.LatMs*sl.Times) * 1000 // a slowed script blocks the locker's only connection that long
+			}
+		}
+		return p
 	}
 	eventAt := func(kind string, locker int) []int64 {
 		var out []int64
@@ -625,9 +716,14 @@ func c34Check(col *stat.Collector, rt stat.Fataler, plan c34Plan, run c34Run) (n
 					interfered = true
 				}
 			}
+			for _, sb := range run.Sabs {
+				if sb.Name == a.Name && sb.AtUs >= a.StartUs && sb.AtUs <= a.RetUs {
+					interfered = true
+				}
+			}
 			for _, ev := range run.Events {
 				if ev.Kind == "exec" && ev.Argv[0] == "<expire>" && ev.At >= a.StartUs && ev.At <= a.RetUs {
-					if n, _, ok := c34NameOf(ev.Argv[1]); ok && n == a.Name {
+					if n, _, ok := plan.nameOf(ev.Argv[1]); ok && n == a.Name {
 						interfered = true
 					}
 				}
@@ -665,6 +761,58 @@ func c34Check(col *stat.Collector, rt stat.Fataler, plan c34Plan, run c34Run) (n
 		}
 	}
 	// ---- clause 3: the holder's context is done before it releases a key
+	// Which keys did an attempt give up? An attempt tries its keys one after the other, each for at most TryNextAfter;
+	// a key whose SET the server executed later than that counts as failed for the client, which deletes it again
+	// ("clean-up") and never regards it as held. From the execution instants e_i of an attempt's SET scripts: the
+	// script for key i was sent at s_i = min(e_(i-1), s_(i-1)+T) and was given up if e_i >= s_i+T. The start of the
+	// attempt is only known to lie after the call, which errs on the side of "given up" (not judged).
+	gaveUp := map[string]map[string]bool{}
+	{
+		tryNext := int64(plan.TryNextMs) * 1000
+		byValKey := map[string]map[int]int64{}
+		callStart := map[string]int64{}
+		for _, sc := range run.Scripts {
+			if sc.Kind != "set" {
+				continue
+			}
+			if _, idx, ok := plan.nameOf(sc.Key); ok {
+				if byValKey[sc.Val] == nil {
+					byValKey[sc.Val] = map[int]int64{}
+				}
+				if _, seen := byValKey[sc.Val][idx]; !seen {
+					byValKey[sc.Val][idx] = sc.AtUs
+				}
+			}
+		}
+		for _, a := range run.Acqs {
+			if a.Val != "" {
+				callStart[a.Val] = a.StartUs
+			}
+		}
+		for v, es := range byValKey {
+			gaveUp[v] = map[string]bool{}
+			var nm string
+			for _, sc := range run.Scripts {
+				if sc.Val == v {
+					nm = sc.Name
+					break
+				}
+			}
+			send := callStart[v] // 0 if the value belongs to an attempt that was not granted: everything is "given up"
+			for i := 0; i < plan.Majority*2-1; i++ {
+				e, tried := es[i]
+				if !tried {
+					continue
+				}
+				if e >= send+tryNext {
+					gaveUp[v][plan.key(nm, i)] = true
+					send += tryNext
+				} else {
+					send = e
+				}
+			}
+		}
+	}
 	// (A release of a surplus key is not judged: an acquire script whose reply came later than TryNextAfter counts as a
 	// failure for the client although the server has set the key, and the client cleans that key up while it goes
 	// on to hold the lock with the others.)
@@ -673,23 +821,11 @@ func c34Check(col *stat.Collector, rt stat.Fataler, plan c34Plan, run c34Run) (n
 			continue
 		}
 		a := byVal[s.Val]
-		if a == nil {
+		if a == nil || gaveUp[s.Val][s.Key] {
 			continue
 		}
 		for _, id := range s.Live {
 			if id == a.ID {
-				// Signature of finding C34.close-releases-before-cancel: Locker.Close closes the notification channels,
-				// every monitor then runs the release script and only cancels the lock context after the script's reply.
-				closing := false
-				for _, at := range eventAt("close", a.Locker) {
-					if at <= s.AtUs {
-						closing = true
-					}
-				}
-				if closing && c.c.Known("C34.close-releases-before-cancel") {
-					cls["close-releases-before-cancel"] = true
-					continue
-				}
 				c.Fail(rt, "C34.done-before-release", fmt.Sprintf("the server executed the release script of %s for key %s at %d us, leaving its value in %d keys (majority %d), while that holder's lock context was not done yet", describe(a), s.Key, s.AtUs, s.Count, plan.Majority), plan)
 			}
 		}
@@ -715,8 +851,22 @@ func c34Check(col *stat.Collector, rt stat.Fataler, plan c34Plan, run c34Run) (n
 		if l == nil {
 			continue
 		}
+		promptUs := promptOf(a.Locker)
+		maxCount := 0
+		for _, sc := range run.Scripts {
+			if sc.Val == a.Val && sc.Count > maxCount {
+				maxCount = sc.Count
+			}
+		}
+		partial := maxCount < plan.Majority*2-1
+		if partial && plan.Majority >= 2 {
+			cls["holder-never-held-every-key"] = true
+		}
 		for _, d := range l.Deficits {
 			cls["lost: "+l.Why] = true
+			if partial && plan.Majority >= 2 && !strings.HasPrefix(l.Why, "released") {
+				cls["partial-holder-lost-a-key"] = true
+			}
 			if d[1] >= 0 && d[1]-d[0] <= promptUs {
 				cls["majority-regained"] = true
 				continue // regained its majority in time (background acquisition of the remaining keys)
@@ -808,6 +958,12 @@ func c34Check(col *stat.Collector, rt stat.Fataler, plan c34Plan, run c34Run) (n
 			}
 		}
 	}
+	lockerOfVal := map[string]int{}
+	for _, s := range run.Scripts {
+		if s.Kind == "set" {
+			lockerOfVal[s.Val] = s.Locker
+		}
+	}
 	// ---- clause 4: waiters are woken up
 	parkedDuringEvent := false
 	for _, a := range run.Acqs {
@@ -841,6 +997,39 @@ func c34Check(col *stat.Collector, rt stat.Fataler, plan c34Plan, run c34Run) (n
 				cls["noloop-local-waiter-stranded"] = true
 				continue
 			}
+			// Signature of finding C34.noloop-timeout-waiter-stranded: NoLoopTracking and an attempt of this call that
+			// failed because a script on a key took longer than TryNextAfter (not because somebody holds the lock). After a
+			// failed attempt WithContext only waits for an invalidation; with NOLOOP the attempt's own clean-up deletions
+			// are silent, and if the lock is free nobody else will ever touch its keys.
+			// (Observed as: a slowed script on the locker's only connection during the call - it also delays the scripts
+			// queued behind it - and the locker's last attempt on the name met no key held by another locker.)
+			timedOut := false
+			if plan.Lockers[a.Locker].NoLoop {
+				// the last attempt of this locker on the name before everything went quiet: did it meet a foreign value?
+				slowed, lastVal, contended := false, "", false
+				for _, s := range run.Scripts {
+					if s.Locker == a.Locker && s.Name == a.Name && s.Kind == "set" && s.Ord > a.StartOrd && s.Ord < a.RetOrd {
+						if s.Val != lastVal {
+							lastVal, contended = s.Val, false
+						}
+						if !s.OK {
+							if l, known := lockerOfVal[s.Prev]; !known || l != a.Locker {
+								contended = true // (a key briefly held by a timed-out sibling attempt of the same locker does not count)
+							}
+						}
+					}
+				}
+				for _, h := range run.SlowHits {
+					if h.Locker == a.Locker && h.AtUs >= a.StartUs && h.AtUs <= a.RetUs {
+						slowed = true
+					}
+				}
+				timedOut = slowed && !contended
+			}
+			if timedOut && c.c.Known("C34.noloop-timeout-waiter-stranded") {
+				cls["noloop-timeout-waiter-stranded"] = true
+				continue
+			}
 			c.Fail(rt, "C34.waiter-wakeup", fmt.Sprintf("%s gave up after %d ms: every holder had released or lost the lock long before, the wake-up was missed", describe(a), (a.RetUs-a.StartUs)/1000), plan)
 		}
 		if a.Returned && a.ErrKind == "other" {
@@ -856,6 +1045,11 @@ func c34Check(col *stat.Collector, rt stat.Fataler, plan c34Plan, run c34Run) (n
 			cls["waited"] = true
 			for i, e := range plan.Events {
 				if (e.Kind == "del-one" || e.Kind == "del-all" || e.Kind == "flushall" || e.Kind == "pexpire") && (e.Name == a.Name || e.Kind == "flushall") && run.ExtAt[i] > a.StartUs && run.ExtAt[i] < a.RetUs {
+					parkedDuringEvent = true
+				}
+			}
+			for _, sb := range run.Sabs {
+				if sb.Name == a.Name && sb.AtUs > a.StartUs && sb.AtUs < a.RetUs {
 					parkedDuringEvent = true
 				}
 			}
@@ -899,6 +1093,20 @@ func c34Check(col *stat.Collector, rt stat.Fataler, plan c34Plan, run c34Run) (n
 		cls["force"] = true
 	}
 	cls[fmt.Sprintf("majority-%d", plan.Majority)] = true
+	if strings.Contains(plan.prefix(), ":") {
+		cls["prefix-with-colon"] = true
+	}
+	for _, n := range plan.Names {
+		if strings.ContainsAny(n, ":{") {
+			cls["name-with-colon-or-brace"] = true
+		}
+	}
+	if len(plan.Slow) > 0 {
+		cls["slow-key-scripts"] = true
+	}
+	if len(run.Sabs) > 0 {
+		cls["key-deleted-under-holder"] = true
+	}
 	for _, e := range plan.Events {
 		cls["event-"+e.Kind] = true
 	}
@@ -933,7 +1141,14 @@ func genC34Plan(rt *rapid.T) c34Plan {
 	for i := 0; i < nl; i++ {
 		p.Lockers = append(p.Lockers, c34Locker{NoLoop: rapid.Bool().Draw(rt, "noloop"), SetPX: rapid.IntRange(0, 3).Draw(rt, "setpx") == 0})
 	}
-	names := []string{"a", "b"}[:rapid.IntRange(1, 2).Draw(rt, "names")]
+	p.Prefix = rapid.SampledFrom([]string{"", "p", "app:locks", "a:b:c", "lock-s.v1/x{y}"}).Draw(rt, "prefix")
+	allNames := []string{"a", "b", "job:42", "{t}:x", "a:b:c"}
+	first := rapid.IntRange(0, len(allNames)-1).Draw(rt, "name0")
+	names := []string{allNames[first]}
+	if rapid.Bool().Draw(rt, "twoNames") {
+		names = append(names, allNames[(first+1+rapid.IntRange(0, len(allNames)-2).Draw(rt, "name1"))%len(allNames)])
+	}
+	p.Names = names
 	na := rapid.IntRange(2, 6).Draw(rt, "actors")
 	force := rapid.IntRange(0, 5).Draw(rt, "anyForce") == 0
 	holds := []int{0, 1, 5, 20, 60, p.ValidityMs/2 + 10, p.ValidityMs + 30}
@@ -955,17 +1170,41 @@ func genC34Plan(rt *rapid.T) c34Plan {
 				Name:   rapid.SampledFrom(names).Draw(rt, "name"),
 				HoldMs: rapid.SampledFrom(holds).Draw(rt, "hold"),
 			}
+			// (not under the longest holds: while a holder keeps its majority with one key free, the waiters of lockers
+			// without NOLOOP take that key, fail, release it and wake themselves up again, once per round trip)
+			if op.HoldMs >= 60 && op.HoldMs <= 450 && rapid.IntRange(0, 1).Draw(rt, "sabotage") == 0 {
+				op.SabAfterMs = rapid.SampledFrom([]int{10, 30}).Draw(rt, "sabAfter")
+				op.SabKey = rapid.IntRange(0, p.Majority*2-2).Draw(rt, "sabKey")
+			}
 			holdSum += op.HoldMs
 			a.Ops = append(a.Ops, op)
 		}
 		p.Actors = append(p.Actors, a)
+	}
+	// acquire scripts that outlast TryNextAfter: the attempt moves on without that key. A locker has one connection
+	// and the server works through it in order, so the delay stays below 2 x TryNextAfter: the script for the next
+	// key, sent when the slow one is given up, is then still answered in time.
+	extraWait := 0
+	if p.Majority >= 2 && rapid.IntRange(0, 2).Draw(rt, "anySlow") != 0 {
+		ns := rapid.IntRange(1, 2).Draw(rt, "nSlow")
+		for i := 0; i < ns; i++ {
+			sl := c34Slow{
+				Locker: rapid.IntRange(0, nl-1).Draw(rt, "slowLocker"),
+				Name:   rapid.SampledFrom(names).Draw(rt, "slowName"),
+				Key:    rapid.IntRange(0, p.Majority*2-2).Draw(rt, "slowKey"),
+				LatMs:  p.TryNextMs + p.TryNextMs*2/5,
+				Times:  rapid.IntRange(1, 2).Draw(rt, "slowTimes"),
+			}
+			extraWait += sl.LatMs * sl.Times
+			p.Slow = append(p.Slow, sl)
+		}
 	}
 	ne := rapid.IntRange(0, 4).Draw(rt, "events")
 	closes := 0
 	for i := 0; i < ne; i++ {
 		e := c34Event{
 			AtMs: rapid.SampledFrom([]int{0, 1, 2, 5, 12, 30, 70, 160, 400}).Draw(rt, "evAt"),
-			Kind: rapid.SampledFrom([]string{"del-one", "del-one", "del-all", "del-all", "pexpire", "flushall", "kill", "close"}).Draw(rt, "evKind"),
+			Kind: rapid.SampledFrom([]string{"del-one", "del-one", "del-all", "del-all", "pexpire", "flushall", "kill", "close", "squat"}).Draw(rt, "evKind"),
 		}
 		switch e.Kind {
 		case "del-one", "pexpire":
@@ -976,6 +1215,17 @@ func genC34Plan(rt *rapid.T) c34Plan {
 			}
 		case "del-all":
 			e.Name = rapid.SampledFrom(names).Draw(rt, "evName")
+		case "squat":
+			// a stale value of a vanished owner on one key; mostly on a key beyond the majority, which an attempt
+			// takes in the background after the lock was granted (a stale value on an earlier key blocks the lock)
+			e.Name = rapid.SampledFrom(names).Draw(rt, "evName")
+			e.Key = rapid.IntRange(0, p.Majority*2-2).Draw(rt, "evKey")
+			if p.Majority >= 2 && rapid.IntRange(0, 3).Draw(rt, "squatLate") != 0 {
+				e.Key = rapid.IntRange(p.Majority, p.Majority*2-2).Draw(rt, "evKeyLate")
+			}
+			e.AtMs = rapid.SampledFrom([]int{0, 0, 0, 2, 30}).Draw(rt, "squatAt")
+			e.Ms = p.ValidityMs * rapid.IntRange(1, 2).Draw(rt, "squatFor")
+			extraWait += e.Ms
 		case "kill", "close":
 			e.Locker = rapid.IntRange(0, nl-1).Draw(rt, "evLocker")
 			closes++
@@ -984,14 +1234,15 @@ func genC34Plan(rt *rapid.T) c34Plan {
 	}
 	// Every hold is bounded, a released lock wakes its waiters at once, and a lock whose owner was closed or
 	// disconnected disappears after one validity period at the latest.
-	p.WaitMs = holdSum + (closes+10)*p.ValidityMs
+	// Stale values expire by themselves, slowed scripts add their delay.
+	p.WaitMs = holdSum + (closes+10)*p.ValidityMs + extraWait
 	return p
 }
 
 func TestVerif_C34_Lock(t *testing.T) {
 	// see TestVerif_C39_Aside: Go 1.25.0 corrupts the specials list when WaitGroup.Add runs in parallel in a bubble
 	defer runtime.GOMAXPROCS(runtime.GOMAXPROCS(1))
-	c := stat.For("C34", "locks").Rule("timed plans in a synctest bubble: 2-4 rueidislock lockers (own clients, shared prefix, KeyMajority 1-3, KeyValidity 200-2000 ms, TryNextAfter 5/20 ms, NoLoopTracking and FallbackSETPX on/off) and 2-6 actors (several may share a locker) x 1-3 calls of WithContext / TryWithContext (ForceWithContext in 1 plan of 6) on 1-2 names with hold times 0 .. validity+30 ms, then the cancel function; events at generated instants by another client: DEL of one / all keys of a name, PEXPIRE 1-30 ms, FLUSHALL; connection kill of a locker, Locker.Close; script latency 0-1 ms; observed: lock contexts (watcher goroutines), every lock script executed by the server with the liveness of all lock contexts at that instant, the key values from the server log; oracle: (5) a granted lock's value was in >= majority keys, (3) a holder's context is done when the server executes a release script that takes its value below the majority, (2) a context is done within 5 ms after its value left the majority (connection not killed), (1) without Force no two holders are live unless the first had lost its majority, (4) no WithContext waits until its deadline of all hold times + 10 validity periods, nothing hangs; non-trivial = an external deletion/expiry/flush or a forced takeover while a WithContext call on that name was waiting, or >= 3 lockers contending for one name at one instant")
+	c := stat.For("C34", "locks").Rule("timed plans in a synctest bubble: 2-4 rueidislock lockers (own clients, shared prefix, KeyMajority 1-3, KeyValidity 200-2000 ms, TryNextAfter 5/20 ms, NoLoopTracking and FallbackSETPX on/off) and 2-6 actors (several may share a locker) x 1-3 calls of WithContext / TryWithContext (ForceWithContext in 1 plan of 6) on 1-2 names with hold times 0 .. validity+30 ms, then the cancel function; KeyPrefix from {default, p, app:locks, a:b:c, lock-s.v1/x{y}} and names from {a, b, job:42, {t}:x, a:b:c}; in 2 of 3 plans with majority >= 2 the server takes 1.4 x TryNextAfter for the first 1-2 scripts a locker sends for 1-2 generated keys (the attempt gives the key up and is granted with the others); events at generated instants by another client: DEL of one / all keys of a name, DEL of one key 10/30 ms after a generated call was granted, PEXPIRE 1-30 ms, FLUSHALL, a stale value (SET NX PX 1-2 validity) on one key; connection kill of a locker, Locker.Close; script latency 0.1-1 ms; observed: lock contexts (watcher goroutines), every lock script executed by the server with the liveness of all lock contexts at that instant, the key values from the server log; oracle: (5) a granted lock's value was in >= majority keys, (3) a holder's context is done when the server executes a release script that takes its value below the majority, (2) a context is done within 5 ms after its value left the majority (connection not killed), (1) without Force no two holders are live unless the first had lost its majority, (4) no WithContext waits until its deadline of all hold times + 10 validity periods, nothing hangs; non-trivial = an external deletion/expiry/flush or a forced takeover while a WithContext call on that name was waiting, or >= 3 lockers contending for one name at one instant")
 	defer c.Flush()
 	rapid.Check(t, func(rt *rapid.T) {
 		plan := genC34Plan(rt)
